@@ -418,6 +418,13 @@ Definition sorted_matches (so : sort_order) (ms : list rmatch) : list dmatch :=
 Definition spec_page (so : sort_order) (size skip : nat) (ms : list rmatch) : list dmatch :=
   firstn size (skipn skip (sorted_matches so ms)).
 
+(* SPEC with a search-after sentinel: the first [size] of the sorted matches that sort strictly
+   after the sentinel (which takes every match's own hit number, so equal keys do not pass) *)
+Definition passes_after (so : sort_order) (a : after_doc) (d : dmatch) : bool :=
+  0 <? compare so d {| hit := hit d; did := []; score := sa_score a; keys := sa_keys a |}.
+Definition spec_after (so : sort_order) (size : nat) (a : after_doc) (ms : list rmatch) : list dmatch :=
+  firstn size (filter (passes_after so a) (sorted_matches so ms)).
+
 Definition spec_total (ms : list rmatch) : Z := Z.of_nat (length ms).
 Definition spec_max_score (ms : list rmatch) : Z := fold_left (fun a m => Z.max a (rscore m)) ms 0.
 
